@@ -33,6 +33,7 @@ from __future__ import print_function
 import logging
 import socket
 import sys
+import threading
 import traceback
 
 try:
@@ -680,6 +681,11 @@ class PooledJSONRPCServer(socketserver.ThreadingMixIn, SimpleJSONRPCServer):
         # Store the thread pool
         self.__request_pool = thread_pool
 
+        # State of the serving loop (see serve_forever() and server_close())
+        self.__state_lock = threading.Lock()
+        self.__serving = False
+        self.__closed = False
+
         # Prepare the server
         SimpleJSONRPCServer.__init__(
             self,
@@ -700,11 +706,35 @@ class PooledJSONRPCServer(socketserver.ThreadingMixIn, SimpleJSONRPCServer):
             self.process_request_thread, request, client_address
         )
 
+    def serve_forever(self, poll_interval=0.5):
+        """
+        Handles requests until shutdown() or server_close() is called
+        """
+        with self.__state_lock:
+            if self.__closed:
+                # Already closed: nothing to serve
+                return
+            self.__serving = True
+
+        try:
+            SimpleJSONRPCServer.serve_forever(self, poll_interval)
+        finally:
+            with self.__state_lock:
+                self.__serving = False
+
     def server_close(self):
         """
         Clean up the server
         """
-        SimpleJSONRPCServer.shutdown(self)
+        with self.__state_lock:
+            self.__closed = True
+            serving = self.__serving
+
+        if serving:
+            # shutdown() waits for the end of the serving loop: it must only
+            # be called if there is such a loop, or it would block forever
+            SimpleJSONRPCServer.shutdown(self)
+
         SimpleJSONRPCServer.server_close(self)
         self.__request_pool.stop()
 
